@@ -835,7 +835,8 @@ def run_check(pid, tier, base_seed, out=sys.stdout):
         "simulated_time_units": round(sim_time, 3),
         "runs_per_hour": int(n_runs / wall * 3600) if wall > 0 else 0,
         "seeds_per_hour": int(n_runs / wall * 3600) if wall > 0 else 0,
-        "fault_and_probe_counters": dict(sorted(stats.items())),
+        "fault_and_probe_counters": dict(sorted((k, v) for k, v in stats.items() if not k.startswith("called."))),
+        "calls_per_function": dict(sorted((k[7:], v) for k, v in stats.items() if k.startswith("called."))),
         "determinism_selftest": det_report,
         "components": w.COMPONENTS,
         "inconclusive_notes": sorted(set(incon))[:20],
